@@ -165,5 +165,5 @@ Fixpoint emit_list (st : state) (cs : list N) : state :=
   | c :: cs' => emit_list (emit st c) cs'
   end.
 
-(** The banner HALT prints, as one abstract token outside the Unicode range. *)
-Definition BANNER : N := 1114112.
+(** The banner HALT prints: "\n      Halted\n" (colour codes are not part of the observation). *)
+Definition BANNER : list N := [10; 32; 32; 32; 32; 32; 32; 72; 97; 108; 116; 101; 100; 10].
